@@ -329,6 +329,13 @@ def programs_defaults(tier):
     progs.append(Program("df65", structs=[S("df65", 65, [
         F("t", T_bool(), (64, 1)),
     ], default=Default((1 << 64) | 1, "="))], props=("C06", "C11", "C13")))
+    # literal notations of the default: binary, underscores, decimal, typed suffix
+    progs.append(Program("dfbin", structs=[S("dfbin", 8, [F("a", T_u(4), (2, 4))], default=Default(0b1010_0101, "=", text="0b1010_0101"))], props=("C06", "C13")))
+    progs.append(Program("dfdec", structs=[S("dfdec", 32, [F("a", T_u(8), (8, 8))], default=Default(1_000_000, ":", text="1_000_000"))], props=("C06", "C13")))
+    progs.append(Program("dfsuf", structs=[S("dfsuf", 16, [F("a", T_u(8), (0, 8))], default=Default(0xBEEF, "=", text="0xBEEFu16"))], props=("C06", "C13")))
+    progs.append(Program("dfoct", structs=[S("dfoct", 12, [F("a", T_u(4), (8, 4))], default=Default(0o7654, "=", text="0o7654"))], props=("C06", "C11", "C13")))
+    progs.append(Program("df1", structs=[S("df1", 1, [F("a", T_bool(), (0, 1))], default=Default(1, "="))], props=("C06", "C11", "C13", "C01", "C02")))
+    progs.append(Program("df2", structs=[S("df2", 2, [F("a", T_u(2), (0, 2))], default=Default(2, ":"))], props=("C06", "C11", "C13", "C01", "C02")))
     progs.append(Program("df64", structs=[S("df64", 64, [F("a", T_u(64), (0, 64))], default=Default(0))], props=("C06", "C13")))
     return progs
 
